@@ -32,6 +32,7 @@ KINDS = ["tensor:stR", "tensor:stR-ops", "tensor:stR-sec", "tensor:stR-TD", "ten
          "tensor:neF", "tensor:neF-TD",
          "getprop:stR", "getprop:stF", "getprop:cRF", "getprop:neF-TD",
          "prop:A:0", "prop:A:1", "prop:A:2", "prop:B:0", "prop:B:1", "prop:A:0:6", "prop:B:2:2",
+         "prop:A:0:4:n2", "prop:A:1:4:n3", "prop:B:0:4:n2", "prop:A:0:4:n2", "prop:B:1:6:n2",
          "prop:N:0", "prop:N:1", "prop:N:2", "prop:N2:0", "prop:N2:1", "prop:T:0", "prop:T:1", "prop:T2:1",
          "eU:calc", "eU:next", "sv:0", "sv:1", "pop", "heom:0", "heom:1", "heom:free", "abs"]
 
@@ -180,17 +181,19 @@ def run_case(case, ctx):
             if p[0] == "prop":
                 pr = {"A": propA, "B": propB, "N": propN, "N2": propN2, "T": propT, "T2": propT2}[p[1]]
                 order = int(p[3]) if len(p) > 3 else 4
+                nref_arg = int(p[4][1:]) if len(p) > 4 else None
                 # two propagators sharing one tensor must give the same result for the same state
-                sig = "prop:" + p[1].rstrip("2") + ":" + ":".join(p[2:]) + "|Nref=%d" % pr.Nref
+                # (the step refinement is sticky by design: a call without Nref uses the last one set; it is part of the signature)
+                sig = "prop:" + p[1].rstrip("2") + ":" + ":".join(p[2:4]) + "|Nref=%d" % (nref_arg if nref_arg is not None else pr.Nref)
                 # the same call made inside the eigenbasis context of the propagator's Hamiltonian is the same computation:
                 # its result, read after the context is left, is the same trajectory
                 inside = (p[1] in ("A", "B")) and bool(rng.random() < 0.35)
                 if inside:
                     ctx.event("calls_inside_a_basis_context")
                     with qr.eigenbasis_of(pr.Hamiltonian):
-                        ev = pr.propagate(states[int(p[2])], method="short-exp-%d" % order)
+                        ev = pr.propagate(states[int(p[2])], method="short-exp-%d" % order, **({"Nref": nref_arg} if nref_arg else {}))
                 else:
-                    ev = pr.propagate(states[int(p[2])], method="short-exp-%d" % order)
+                    ev = pr.propagate(states[int(p[2])], method="short-exp-%d" % order, **({"Nref": nref_arg} if nref_arg else {}))
                 return sig, arr(ev.data).ravel()
             if kind == "eU:calc":
                 eU.calculate(show_progress=False)
